@@ -316,3 +316,113 @@ def has_cmp(lits, op, pred_a, pred_b):
             if op in ("eq", "ne") and pred_a(l[3]) and pred_b(l[2]):
                 return True
     return False
+
+
+# ---------------------------------------------------------------- interprocedural expansion of boolean helpers
+
+def _subst_tree(t, argmap, pv):
+    k = t[0]
+    if k == "path":
+        r = t[1]
+        if r[0] == "arg" and r[1] in argmap:
+            cur = argmap[r[1]]
+            for n in t[2]:
+                cur = pv._project1(cur, n)
+            return cur
+        return t
+    if k == "call":
+        return ("call", t[1], t[2], tuple(_subst_tree(a, argmap, pv) for a in t[3]))
+    if k == "bin":
+        return ("bin", t[1], _subst_tree(t[2], argmap, pv), _subst_tree(t[3], argmap, pv))
+    if k == "un":
+        return ("un", t[1], _subst_tree(t[2], argmap, pv))
+    if k == "cast":
+        return ("cast", t[1], _subst_tree(t[2], argmap, pv), t[3])
+    if k == "agg":
+        return ("agg", t[1], t[2], tuple((f, _subst_tree(s, argmap, pv)) for f, s in t[3]))
+    if k in ("ref", "deref", "discr", "promoted"):
+        return (k, _subst_tree(t[1], argmap, pv))
+    if k == "field":
+        return ("field", _subst_tree(t[1], argmap, pv), t[2])
+    if k == "phi":
+        return ("phi", tuple(_subst_tree(s, argmap, pv) for s in t[1]))
+    return t
+
+
+def _subst_lit(l, argmap, pv):
+    if l[0] == "variant":
+        return ("variant", df.strip(_subst_tree(l[1], argmap, pv)), l[2], l[3])
+    if l[0] == "cmp":
+        return ("cmp", l[1], df.strip(_subst_tree(l[2], argmap, pv)), df.strip(_subst_tree(l[3], argmap, pv)))
+    if l[0] == "bool":
+        return ("bool", _subst_tree(l[1], argmap, pv), l[2])
+    if l[0] == "int":
+        return ("int", _subst_tree(l[1], argmap, pv), l[2])
+    return l
+
+
+def returns_literals(prog, callee_body, truth):
+    """Literals (over the callee's parameters) that hold whenever the bool-returning body returns `truth`."""
+    c = conds(prog, callee_body)
+    sets = []
+    for (bi, si, d) in c.d.whole.get(0, []):
+        if d[0] == "assign" and d[1]["k"] == "use":
+            v = mir.op_const(d[1]["op"])
+            if isinstance(v, bool):
+                if v == truth:
+                    sets.append(set(c.must_literals(bi)))
+                continue
+        tr = c.prov.rvalue_tree(d[1]) if d[0] == "assign" else c.prov.call_tree(d[1])
+        sets.append(set(c.must_literals(bi)) | c._bool_literals(tr, truth, 0))
+    if not sets:
+        return set()
+    return join_literal_sets(sets)
+
+
+def expand_literals(prog, body, lits, depth=2):
+    """lits plus, for every literal that is the truth value of a call to an in-workspace bool function (or a
+    closure passed to with_ref/with_mut), the literals that function guarantees, rewritten to the caller's terms."""
+    from .callgraph import callgraph
+    cg = callgraph(prog)
+    out = set(lits)
+    work = list(lits)
+    seen = set()
+    pv = conds(prog, body).prov
+    level = {l: 0 for l in lits}
+    while work:
+        l = work.pop()
+        if l in seen:
+            continue
+        seen.add(l)
+        if level.get(l, 0) >= depth:
+            continue
+        if l[0] != "bool":
+            continue
+        t = df.strip(l[1])
+        if t[0] != "call":
+            continue
+        callee = None
+        argmap = {}
+        if t[2] in ("with_ref", "with_mut") and len(t[3]) >= 2:
+            clo = df.strip(t[3][1])
+            if clo[0] == "agg" and clo[1].startswith("closure:"):
+                callee = cg.lookup(body.unit, clo[1][len("closure:"):])
+                # closure params: arg1 = env, arg2 = the locked state (opaque)
+                if callee is not None:
+                    caps = dict(clo[3])
+                    argmap = {}
+                    cpv = conds(prog, callee).prov
+        else:
+            callee = cg.lookup(body.unit, t[1])
+            if callee is not None and not callee.is_closure:
+                argmap = {i + 1: a for i, a in enumerate(t[3])}
+        if callee is None or callee.local_ty(0)["s"] != "bool":
+            continue
+        new = returns_literals(prog, callee, l[2])
+        for nl in new:
+            nl2 = _subst_lit(nl, argmap, pv) if argmap else nl
+            if nl2 not in out:
+                out.add(nl2)
+                level[nl2] = level.get(l, 0) + 1
+                work.append(nl2)
+    return out
